@@ -355,6 +355,8 @@ def call(node: ast.Call, env: Env) -> Term:
         name = "<call>"
     args_t = tuple(T(a, env) for a in node.args)
     kw_t = tuple(sorted(((k.arg or "**", T(k.value, env)) for k in node.keywords), key=_key))
+    if recv is None and name == "range" and len(args_t) == 1 and not kw_t:
+        args_t = (("const", "0"),) + args_t  # range(n) is range(0, n)
     return ("call", recv, name, args_t, kw_t)
 
 
